@@ -47,8 +47,13 @@ ASSUMPTIONS = [
     'num_epochs and num_steps are not both None; a cohort containing an empty '
     'client always has num_epochs set (otherwise batching never terminates; '
     'outside the documented domain N>=1 of C04)',
-    'for the rng-dependent loss only metamorphic relations are asserted: the '
-    'statement does not fix how a client derives per-step keys',
+    'rng-dependent loss: the statement does not fix how a client derives per-step '
+    'keys, so the checks relations/client_keys assert only metamorphic relations; '
+    'the separate check documented_key_schedule compares with a reference that '
+    'follows the schedule the documentation gives for the client loop '
+    '(docs/notebooks/algorithms_tutorial.ipynb: rng, use_rng = split(rng); '
+    'grad_fn(params, batch, use_rng) at every step) -- a change of that schedule '
+    'is reported there and only there',
     'client ids within a cohort are distinct (samplers never repeat a client)',
 ]
 
@@ -209,6 +214,9 @@ class Reference:
   def grad(self, params, batch):
     return ref_grad(params, batch)
 
+  def begin_client(self, seed):
+    pass
+
   def _track(self, tree):
     for v in tree.values():
       self.scale = max(self.scale, float(np.max(np.abs(v))) if np.size(v) else 0.0)
@@ -217,8 +225,9 @@ class Reference:
     hp = hparams_of(self.case['hparams'])
     total = 0.0
     acc = {k: np.zeros_like(v, dtype=np.float64) for k, v in self.params.items()}
-    for i, _ in rnd:
+    for i, seed in rnd:
       ds = datasets[i]
+      self.begin_client(seed)
       opt = ref_optimizer(self.case['client_opt'])
       p = dict(self.params)
       s = opt.init(p)
@@ -245,6 +254,24 @@ class Reference:
     self.server_state, self.params = self.server.apply(mean, self.server_state, self.params)
     self._track(self.params)
     return self.params
+
+
+class KeyedReference(Reference):
+  """The rng-dependent loss under the key schedule the documentation gives for
+  the FedAvg client loop (docs/notebooks/algorithms_tutorial.ipynb, "for batch
+  in ...: client_rng, use_rng = jax.random.split(client_rng); grads =
+  grad_fn(params, batch, use_rng)"): every step splits the carried key and
+  hands the second half to the gradient."""
+
+  def begin_client(self, seed):
+    self._rng = jax.random.PRNGKey(seed)
+
+  def grad(self, params, batch):
+    self._rng, use_rng = jax.random.split(self._rng)
+    shift = float(jax.random.randint(use_rng, (), -4, 5)) / 4.0
+    g = ref_grad(params, batch)
+    g['w'] = g['w'] + shift
+    return g
 
 
 def to_np(params):
@@ -280,16 +307,16 @@ def run_round_history(case, backend_name):
 
 def run_definition(case):
   """Clause: value equals the mathematical definition, every round, every backend."""
-  if case['noisy']:
-    raise Discard('definition check uses the rng-independent loss')
   got, datasets = run_round_history(case, case['backend'])
-  ref = Reference(case)
+  ref = KeyedReference(case) if case['noisy'] else Reference(case)
   extra = []
   for r, rnd in enumerate(case['rounds']):
     want = ref.round(rnd, datasets)
     adaptive = any(case[o]['name'] in ('adam', 'adagrad', 'rmsprop') for o in ('client_opt', 'server_opt'))
     tol = (1e-4 if adaptive else 2e-5) * ref.scale
-    require(close(got[r], want, tol), 'round_differs_from_definition',
+    require(close(got[r], want, tol),
+            'round_differs_from_definition_under_documented_key_schedule' if case['noisy']
+            else 'round_differs_from_definition',
             lambda: f'round {r} backend {case["backend"]}: max abs diff {diff(got[r], want):.3e} '
                     f'tol {tol:.3e}; got {got[r]} want {want}')
     if sum(len(datasets[i]) for i, _ in rnd) == 0:
@@ -512,6 +539,14 @@ CHECKS = [
           budget={'quick': 320, 'thorough': 5000}, time_share=3.0,
           doc='every round equals server_opt(example-weighted mean of (p - p_i)) '
               'computed by an independent float64 / raw-optax reference'),
+    Check(name='documented_key_schedule', run=run_definition,
+          strategy=lambda tier: case_strategy(tier).map(lambda c: dict(c, noisy=True)),
+          labels=labels, nontrivial=nontrivial,
+          budget={'quick': 96, 'thorough': 1500}, time_share=1.2,
+          doc='the definition check with a loss that uses its key (gradient shift '
+              'drawn from the key): the float64 reference follows the per-step key '
+              'schedule of the documented FedAvg client loop (algorithms tutorial: '
+              'split the carried key, hand the second half to grad_fn)'),
     Check(name='relations', run=run_relations,
           strategy=lambda tier: case_strategy(tier),
           labels=labels, nontrivial=nontrivial_rel,
